@@ -27,9 +27,9 @@ var spot string
 var spotlights = map[string][]string{
 	"C01": {"swap-recheck", "other-invoker", "sibling-P", "inv-as-proof", "lookalike", "long-chain", "prov-dlg", "hook-twice"},
 	"C02": {"self-K", "sibling-K", "alike", "deep", "top-under-one", "long-chain"},
-	"C03": {"uslice", "nullopt", "alias", "twin", "sibling-Q", "hook-null", "optional-and"},
+	"C03": {"uslice", "nullopt", "alias", "twin", "sibling-Q", "hook-null", "optional-and", "starstr"},
 	"C04": {"far-nbf", "sibling-W", "both-bounds", "unbounded-then-bad"},
-	"C05": {"far-exp", "uslice", "prov-inv", "prov-dlg", "hook-twice", "long-chain", "reuse"},
+	"C05": {"far-exp", "uslice", "prov-inv", "prov-dlg", "hook-twice", "long-chain", "reuse", "starstr"},
 	"C07": {"far-exp", "uslice", "nullopt"},
 	"C09": {"inv-as-proof", "long-chain", "deep"},
 	"":    {"swap-recheck", "other-invoker", "self-K", "sibling-K", "uslice", "nullopt", "alias", "twin", "far-nbf", "far-exp", "inv-as-proof", "sibling-W"},
@@ -238,6 +238,15 @@ func genArgs(r *Rand) []KV {
 	if r.Chance(0.2) {
 		out = append(out, KV{"b", vBool(r.Chance(0.5))})
 	}
+	if spotWant(r, "starstr", 0.2) {
+		// a string that itself holds the characters the pattern language gives a meaning to
+		n := r.Range(1, 6)
+		b := make([]byte, n)
+		for i := range b {
+			b[i] = "ab**\\"[r.Intn(5)]
+		}
+		out = append(out, KV{"g", vStr(string(b))})
+	}
 	if spotWant(r, "uslice", 0.25) {
 		// a string with characters of 1, 2, 3 and 4 UTF-8 bytes (slices count characters)
 		alphabet := []rune("ab\u00e9\u00fc\u65e5\u672c\U0001d11ez.")
@@ -297,6 +306,11 @@ func isLowerAlpha(s string) bool {
 
 func ptr[T any](v T) *T { return &v }
 
+// globLit writes a string as a pattern that stands for exactly that string.
+func globLit(s string) string {
+	return strings.NewReplacer("\\", "\\\\", "*", "\\*").Replace(s)
+}
+
 func likePattern(r *Rand, s string, match bool) string {
 	if match {
 		// replace a random substring by *
@@ -305,21 +319,21 @@ func likePattern(r *Rand, s string, match bool) string {
 		}
 		i := r.Intn(len(s) + 1)
 		j := i + r.Intn(len(s)-i+1)
-		p := s[:i] + "*" + s[j:]
+		p := globLit(s[:i]) + "*" + globLit(s[j:])
 		if r.Chance(0.3) {
 			p = "*" + p
 		}
 		if r.Chance(0.2) {
-			return s
+			return globLit(s)
 		}
 		return p
 	}
 	// a pattern that does not match: require a letter that is not in the alphabet of s
 	switch r.Intn(3) {
 	case 0:
-		return s + "q"
+		return globLit(s) + "q"
 	case 1:
-		return "q*" + s
+		return "q*" + globLit(s)
 	default:
 		return "*q*"
 	}
@@ -392,9 +406,9 @@ func genStmt0(r *Rand, a []KV, want bool, depth int, top bool) Stmt {
 		return Stmt{Op: Pick(r, []string{"==", "<", ">="}), Sel: Pick(r, []string{".zz", ".m.zz", ".zz.y"}), Val: ptr(vInt(int64(r.Range(0, 5))))}
 	}
 	kv := a[r.Intn(len(a))]
-	if top && (spot == "uslice" || spot == "nullopt") {
+	if top && (spot == "uslice" || spot == "nullopt" || spot == "starstr") {
 		for _, x := range a {
-			if (spot == "uslice" && x.Key == "u") || (spot == "nullopt" && x.Key == "m") {
+			if (spot == "uslice" && x.Key == "u") || (spot == "nullopt" && x.Key == "m") || (spot == "starstr" && x.Key == "g") {
 				kv = x
 			}
 		}
@@ -451,7 +465,7 @@ func genStmt0(r *Rand, a []KV, want bool, depth int, top bool) Stmt {
 				return Stmt{Op: "==", Sel: sel + form, Val: ptr(vStr(got.S + Pick(r, []string{"q", "\u00e9", "."})))}
 			}
 		}
-		if r.Chance(0.5) && isLowerAlpha(v.S) {
+		if (r.Chance(0.5) && isLowerAlpha(v.S)) || (kv.Key == "g" && spotWant(r, "starstr", 0.8)) {
 			return Stmt{Op: "like", Sel: sel, Pat: likePattern(r, v.S, want)}
 		}
 		if want {
@@ -890,7 +904,7 @@ func genWorld(r *Rand, cfg GenCfg) Plan {
 		conform, forced = false, "Q"
 	case "far-nbf", "both-bounds", "unbounded-then-bad":
 		conform, forced = false, "W"
-	case "uslice", "nullopt":
+	case "uslice", "nullopt", "starstr":
 		if focus == "C03" {
 			conform, forced = false, "Q"
 		} else {
